@@ -138,7 +138,10 @@ def flatten_h1_notes(h1s: Iterable[Any]) -> list[Any]:
     return notes
 
 
-def _var_map_value(value: str) -> Any:
-    if re.match("^[0-9]{4}[01][0-9][0-3][0-9]$", value):
+def _var_map_value(value: Any) -> Any:
+    # Values that were converted already (e.g. by the CLI) are left alone.
+    if isinstance(value, str) and re.match(
+        "^[0-9]{4}[01][0-9][0-3][0-9]$", value
+    ):
         return dt.datetime.strptime(value, "%Y%m%d")
     return value
